@@ -182,6 +182,13 @@ def rule_countguard(ctx, rule="C01.COUNTGUARD"):
                     good = True
                     witness = x
                     reviewed = COUNT_REVIEWED[f.qual]
+                helpers = [h for h in s.inlined if h in COUNT_EXEMPT]
+                if not good and helpers and _shares_param(g[1], base):
+                    # the division came here with a helper evaluated in place: the reviewed argument for that helper (its
+                    # call sites are reached only after an emptiness exit on its inputs) is this very path condition
+                    good = True
+                    witness = x
+                    reviewed = "division of %s, evaluated in place: %s" % (helpers[0], COUNT_EXEMPT[helpers[0]])
             yield ob(
                 rule,
                 f,
@@ -1070,7 +1077,7 @@ def rule_entropynorm(ctx):
     need(logs, R, "information_gain: normaliser log2(bins) not found")
     nb = logs[0].a[1][0]
     same = all(n is logs[0] for n in logs)
-    g = ctx.program.func("beat._get_entropy", R)
+    g = ctx.program.func("beat._get_entropy", R, resigned_ok=True)
     for i, c in enumerate(calls):
         b = None
         if len(c.args) >= 3:
